@@ -103,7 +103,10 @@ pub fn classify_state(s: &ParseState) -> Option<(Fault, Option<usize>, Option<us
             DecodeError::StreamExpected(o) | DecodeError::LimitReached(o) => (Fault::Missing, Some(*o), None),
             other => (Fault::Undecodable, decode_offset(other), None),
         },
-        ParseState::Complete | ParseState::ConsumerStopRequested | ParseState::ConsumerError(_) => return None,
+        // (wildcard: a state the pinned tree does not have is no fault class of the property either; the harness
+        // must keep compiling when the library gains error variants)
+        #[allow(unreachable_patterns)]
+        ParseState::Complete | ParseState::ConsumerStopRequested | ParseState::ConsumerError(_) | _ => return None,
     })
 }
 
